@@ -91,6 +91,7 @@ Definition audited : list audit := [
   A "eval" "eval.go" "State.extendFunctionEnv" "assert" 1 U "pval.(Integer) after Type()==INTEGER";
   A "eval" "eval.go" "State.extendFunctionEnv" "index" 4 U "args[len-1] after len(args) > 0; args[paramIdx] after len(args) == len(params)";
   A "eval" "eval.go" "State.extendFunctionEnv" "slice" 4 U "params[:n] with n = len-1 >= 0 (a variadic function has its .. parameter); args[:len-1] after len > 0; args[n:], args[:n] after len(args) >= n";
+  A "eval" "eval.go" "ModifyRegister" "indexc" 1 U "Parameters[0] after len(Parameters) > 0 on the same && chain";
   A "eval" "eval.go" "derefAll" "index" 1 U "objs[i] with i from range objs";
   A "eval" "eval.go" "evalArrayIndexExpression" "index" 1 G "Elements[idx] after 0 <= idx <= maxV: Arith.index_expr";
   A "eval" "eval.go" "evalMapIndexExpression" "assert" 1 U "assoc.(Map) after Type()==MAP at the only call site";
